@@ -189,6 +189,12 @@ def run(cx):
                         src = s["rv"]["from"]
             ob.require(src in (f"alloc::sync::Arc<{CV}>", f"alloc::sync::Arc<{EV}>"), f"client-verifier/type/{owner_path(prog, c.body)}",
                        f"{c.body.path}: server cert verifier has type {src}", c.body.path, c.body.loc(c.bb))
+        # the only quinn endpoint anemo creates is the one in Endpoint::new (no second listener with other verifiers)
+        for ctor in ("quinn::endpoint::Endpoint::new", "quinn::endpoint::Endpoint::server", "quinn::endpoint::Endpoint::client", "quinn::endpoint::Endpoint::new_with_abstract_socket"):
+            for c in prog.callers_of(ctor, crates=A):
+                ob.require(c.body.path == "anemo::endpoint::Endpoint::new", f"endpoint-ctor/{owner_path(prog, c.body)}", f"a quinn endpoint is created in {c.body.path}", c.body.path, c.body.loc(c.bb))
+        for c in prog.callers_of(("quinn::endpoint::Endpoint::set_server_config", "quinn::endpoint::Endpoint::set_default_client_config"), crates=A):
+            ob.fail("refuted", f"endpoint-reconfig/{owner_path(prog, c.body)}", f"{c.body.path} replaces the endpoint's TLS configuration", c.body.path, c.body.loc(c.bb))
         # server_config is what Endpoint::new installs
         eb = cx.body("anemo::endpoint::Endpoint::new")
         qn = eb.calls_to("quinn::endpoint::Endpoint::new")
